@@ -225,9 +225,42 @@ pub fn execute(w: &Work) -> String {
                     use geo::triangulate_delaunay::{DelaunayTriangulationConfig, TriangulateDelaunay};
                     format!("{:?}", TriangulateDelaunay::constrained_outer_triangulation(&crossing, DelaunayTriangulationConfig::default()).map_err(|e| e.to_string()))
                 };
+                // many-vertex versions of both operands (densified: 40 and more segments per ring, coordinates that are not
+                // integers): area and centroid of equal polygons held in DIFFERENT buffers (several clones alive at once, the
+                // allocator places them differently from run to run), and the deprecated TriangulateSpade on their overlapping
+                // union (64 and more constraint lines with crossings)
+                let dense = |m: &MultiPolygon<f64>| -> MultiPolygon<f64> {
+                    use geo::MapCoords;
+                    Euclidean.densify(m, 0.37).map_coords(|c| Coord { x: c.x * 0.1 + 0.3, y: c.y * 0.7 - 0.1 })
+                };
+                let (da, db) = (dense(&ma), dense(&mb));
+                let mut keep: Vec<(Vec<u8>, MultiPolygon<f64>)> = vec![];
+                let mut measures: Vec<String> = vec![];
+                for k in 0..6usize {
+                    let junk = vec![0u8; 8 + 40 * k];
+                    let cl = da.clone();
+                    measures.push(format!("{:?} {:?} {:?}", geo::Area::signed_area(&cl), geo::Area::unsigned_area(&cl), geo::Centroid::centroid(&cl)));
+                    keep.push((junk, cl));
+                }
+                let buffer_independent = measures.windows(2).all(|w| w[0] == w[1]);
+                let spade_big = {
+                    #[allow(deprecated)]
+                    {
+                        use geo::TriangulateSpade;
+                        let both = MultiPolygon::new(da.0.iter().chain(db.0.iter()).cloned().collect());
+                        // (resolving the crossings of the constraint lines is quadratic per crossing: bounded input only)
+                        let n = { use geo::CoordsIter; both.coords_count() };
+                        if (64..=140).contains(&n) {
+                            format!("{:?}", TriangulateSpade::constrained_outer_triangulation(&both, Default::default()).map_err(|e| e.to_string()))
+                        } else {
+                            format!("not run for {n} coordinates")
+                        }
+                    }
+                };
                 let order_kept = hist_same && par_polys == seq_polys && par_lines == lines.iter().map(|l| l.0.len()).collect::<Vec<_>>();
                 format!(
-                    "{}|{:?}|{:?}|{:?}|{:?}|{:?}|{:?}|{:?}|{:?}|{:?}|{:?}|{}",
+                    "{}|{}|{}|{}|{:?}|{:?}|{:?}|{:?}|{:?}|{:?}|{:?}|{:?}|{:?}|{:?}|{}",
+                    measures[0], if buffer_independent { "buffer-independent" } else { "AREA-OR-CENTROID-DEPENDS-ON-THE-BUFFER" }, spade_big,
                     tri_crossing, ma.clip(&lines, false), ma.clip(&lines, true), ma.boolean_op(&mb, OpType::Xor),
                     MonotonicPolygons::from(ma.clone()).subdivisions().iter().map(|m| m.clone().into_polygon()).collect::<Vec<_>>(),
                     ma.validation_errors(), Euclidean.densify(&ma, 1.5), ma.simplify_vw(0.5), mb.simplify_vw_preserve(0.5),
